@@ -30,7 +30,8 @@ template<class R> static inline uint64_t bits(R r)
   else return static_cast<uint64_t>(static_cast<int64_t>(r));
   }
 
-static std::vector<Op> g_ops;
+static std::vector<Op> & ops_ref() { static std::vector<Op> * v = new std::vector<Op>(); return *v; }
+#define g_ops (ops_ref())
 
 static bool ok_always(uint64_t, uint64_t) { return true; }
 // input-only traps of the unchanged tree (DESIGN 6, C03) are kept out of the workload
